@@ -11,7 +11,7 @@ METHODS = ["hi", "x", "hidden", "secret", "_private", "__init__", "__class__", "
            "__init__x", "cb_a", "cb_b", "getInterface", "doRemoteCall", "processUniqueID", "Hi", "hi ", "__dict__"]
 BROKER_EXTRA = ["shutdown", "finish", "setTub", "remote_decref", "connectionLost", "doRemoteCall", "__class__",
                 "abandonAllRequests", "getMyReferenceByCLID", "dataReceived", "send", ""]
-COPY_NAMES = ["my.rc1", "my.rc2", "my.rc3", "os.system", "builtins.object", "", "my.rc"]
+COPY_NAMES = ["my.rc1", "my.rc2", "my.rc3", "os.system", "builtins.object", "", "my.rc", "harness.c06_impl.RC1"]
 PUB_NAMES = ["pub", "pub2", "hub", "", "p/q"]
 
 
@@ -169,7 +169,7 @@ class Gen:
         if r < 0.29:
             return ["Unregister", self.pick([1, 2, 3, 4, 5, 6])]
         if r < 0.34:
-            return ["RegisterCopy", self.pick(COPY_NAMES[:3] + ["my.rc"]), self.pick([1, 2, 3])]
+            return ["RegisterCopy", self.pick(COPY_NAMES[:3] + ["my.rc"]), self.pick([2, 3, 1, 2, 3])]
         if r < 0.37:
             return ["Top", c, self.pick(["answer", "error", "set-vocab", "add-vocab", "instance", "list", "arguments", "x"])]
         if r < 0.375:
@@ -197,7 +197,7 @@ class Gen:
             m = self.pick(["getReferenceByName", "decref", "decgift"] + BROKER_EXTRA + METHODS[:6])
             return ["Msg", c, rq, 0, B(m), self.args(c, snap, seen, copyreg)]
         m = B(self.pick(METHODS))
-        if clid in snap[c] and clid > 0 and self.r.random() < 0.45:
+        if clid in snap[c] and clid > 0 and snap[c][clid][0] in impl_world() and self.r.random() < 0.45:
             # a method the target really exposes
             wd = impl_world()[snap[c][clid][0]]
             good = [a[7:] for a in wd["attrs"] if a.startswith("remote_")]
@@ -392,7 +392,7 @@ def expected_obs(o, ev):
     """implementation observation -> the shape the model prints"""
     ent = [e for e in o["entered"] if not (e[0] == "broker" and e[2] == "doRemoteCall")]
     code = dict(Reject=4, Aborted=5, Dead=6, Local=7)
-    if o["out"] == "Enter":
+    if o["out"] == "Enter" and ent:
         e = ent[0]
         if e[0] == "broker":
             out = (1, 0, B(e[2]))
@@ -462,6 +462,34 @@ def correspond(ctx, impl, hists, tag):
     ctx.extra["correspondence_histories"] = ctx.extra.get("correspondence_histories", 0) + len(hists)
     ctx.extra["correspondence_events"] = ctx.extra.get("correspondence_events", 0) + sum(len(h[0]) for h in hists)
     ctx.extra["correspondence_disagreements"] = ctx.extra.get("correspondence_disagreements", 0) + nbad
+
+
+def correspond_decref(ctx):
+    """the translated ReferenceableTracker.decref against the original, on a grid incl. boundary values"""
+    from foolscap.referenceable import ReferenceableTracker
+    vals = [-3, -1, 0, 1, 2, 3, 5, 2 ** 40]
+    grid = [(n, rc) for n in vals for rc in vals if rc >= 0]
+    body = ("Definition enc (r : res (bool * Z)) : Z * Z := match r with Ok (d, rc) => ((if d then 1 else 0), rc) | Exc _ => (2, 0) end.\n"
+            "Eval vm_compute in map (fun p => enc (tracker_decref (fst p) (snd p))) %s.\n"
+            % coq_list(["(%s, %s)" % (coq_Z(n), coq_Z(rc)) for n, rc in grid]))
+    try:
+        (vals_,) = ctx.coq_eval("C06_decref", body, requires=REQ)
+    except common.CoqEvalError as e:
+        ctx.fail("correspondence-broken", "tracker_decref could not be evaluated: " + str(e)[-1000:], has_input=False)
+        return
+    for (n, rc), got in zip(grid, vals_):
+        t = ReferenceableTracker(None, object(), 1, 1)
+        t.refcount = rc
+        try:
+            d = t.decref(n)
+            exp = (1 if d else 0, t.refcount)
+        except AssertionError:
+            exp = (2, 0)
+        ctx.traces += 1
+        if tuple(got) != exp:
+            ctx.fail("correspondence/tracker-decref", "translated decref(%d) with refcount %d gives %r, the original %r" % (n, rc, got, exp),
+                     replay=dict(count=n, refcount=rc, model=got, impl=exp), has_input=False)
+    ctx.extra["decref_grid"] = len(grid)
 
 
 def shrink(ctx, impl, evs, sig):
@@ -543,6 +571,7 @@ def run(ctx):
         shard = 60
         for k in range(0, len(hists), shard):
             correspond(ctx, impl, hists[k:k + shard], "cases_%d" % (k // shard))
+        correspond_decref(ctx)
     if not ok and len(ctx.failures) == before:
         ctx.fail("proof-broken", "theorem closure props/C06.vo no longer builds against the regenerated gen/ReachGen.v:\n" + log[-2500:],
                  replay=dict(log=log[-6000:]), has_input=False)
